@@ -91,7 +91,7 @@ THEOREMS = [
     "Spydr.Eblif.eblif_self_contained_text",
     "Spydr.Eblif.eblif_undeclared_leaf_text",
     "Spydr.Eblif.eblif_onNet_exact_text",
-    "Spydr.Eblif.leaf_port_shrinks",
+    "Spydr.Eblif.leaf_port_kept",
     "Spydr.Eblif.eblif_roundtrip_leaf_ports",
 ]
 MODULES = ["Spydr.Eblif.Props.C18", "Spydr.Eblif.Props.C18RoundTrip", "Spydr.Eblif.Props.C18ReadOk", "Spydr.Eblif.Props.C18Ports", "Spydr.Eblif.Props.C18BlackBox", "Spydr.Eblif.Props.C18FullParse", "Spydr.Eblif.Props.C18GenDefs", "Spydr.Eblif.Props.C18Mirror", "Spydr.Eblif.Props.C18Full", "Spydr.Eblif.Props.C18Any", "Spydr.Eblif.FragCheck"]
@@ -104,6 +104,7 @@ FINDING = {
     "inner-comment": "eblif.comment-inside-statement-group",
     "conn": "eblif.conn-not-persistent-or-not-written",
     "multi-driver": "eblif.net-derived-name-taken",
+    "unconn-width": "eblif.unconn-bus-bit-loses-width",
 }
 # which clauses a mechanism is allowed to explain (prefix match on the clause after the stage)
 EXPLAINS = {
@@ -114,8 +115,9 @@ EXPLAINS = {
     "inner-comment": ["instances.cname", "instances.data", "ports", "nets", "corr.", "blackbox-ports"],
     "conn": ["nets", "raises.value", "raises.assert", "corr."],
     "multi-driver": ["raises.value", "corr."],
+    "unconn-width": ["instances.pins", "leaf-ports", "corr."],
 }
-HZ_ORDER = ["latch-growth", "multi-driver", "cname-default", "conn", "inner-comment", "port-growth", "blackbox-ports"]
+HZ_ORDER = ["latch-growth", "multi-driver", "cname-default", "conn", "inner-comment", "unconn-width", "port-growth", "blackbox-ports"]
 OPTS = [(True, True), (False, True), (True, False), (False, False)]
 
 
